@@ -36,7 +36,7 @@ from tornado.platform import asyncio as tpa
 from sim.env import SimEnv, ModProxy, UNIT
 from sim.tape import jsonable
 from sim.threads import (Baton, BatonLoop, SimSelect, sim_threading, line_tracer,
-                         run_forked, DONE, BLOCKED)
+                         ForkRunner, DONE, BLOCKED)
 
 ID = "C40"
 LEVEL = "exploration"
@@ -225,7 +225,9 @@ class _WorkloadError(Exception):
     """Raised on purpose by a workload callback (action "raise")."""
 
 
-def _child(scn, full_log, result):
+def _child(request, result):
+    scn = request["scn"]
+    full_log = request["full_log"]
     knobs = scn["knobs"]
     viol = []
     probes = {}
@@ -296,13 +298,26 @@ def _child(scn, full_log, result):
         st["faults"]["preemption"] = sched.preempts
         started = len(sched.threads) > 1
         nontrivial = bool(started and sched.preempts >= 1 and W.dispatches >= 1)
+        # clean = this process can host another run: no thread left behind
+        clean = fatal is None and all(t.state == DONE for t in sched.threads[1:])
+        if clean:
+            loop.sched = None
+            loop.block_hook = None
+            sel = state["sel"]
+            if sel is not None:
+                # finish the thread manager's async generator now (its finalizer would
+                # otherwise run at some later collection, against a closed loop)
+                try:
+                    sel._selector._thread_manager_handle.aclose().send(None)
+                except BaseException:  # noqa: BLE001 - StopIteration and friends
+                    pass
         result.send({
             "violations": viol, "nontrivial": nontrivial, "stats": jsonable(st),
             "log_head": jsonable(log.head[:120]),
             "log_full": jsonable(log.full) if log.full is not None else None,
             "outcome": jsonable({"status": W.outcome, "steps": sched.steps,
                                  "threads": sched.describe(), "dispatches": W.dispatches}),
-        })
+        }, clean=clean)
 
     sched = Baton(env.tapes.draw, log, max_steps=30000 if knobs.get("line") else 5000,
                   fair_cap=8000 if knobs.get("line") else 2000, on_fatal=lambda kind, detail: finish((kind, detail)))
@@ -731,6 +746,9 @@ def _child(scn, full_log, result):
 _frozen = []
 
 
+_runner = ForkRunner(_child, wall=WALL)
+
+
 def run(scn, full_log=False):
     if not _frozen:
         # keep the child's page-copying small: nothing allocated so far is ever
@@ -739,7 +757,4 @@ def run(scn, full_log=False):
         gc.collect()
         gc.freeze()
         _frozen.append(1)
-    res = run_forked(lambda result: _child(scn, full_log, result), wall=WALL)
-    if res.get("log_full") is None:
-        res["log_full"] = None
-    return res
+    return _runner.run({"scn": scn, "full_log": bool(full_log)})
